@@ -53,14 +53,14 @@ claims = {
          "anyToObfuscate counts only packages of the user's build, not the linknamed std packages folded into the listing. Known finding F20: source directories and assembly file names are hashed for non-selected packages too, so their positions are not verbatim. Decides these clauses, not the behaviour of mixed programs.",
          "dominance by edge facts over access paths (go/ssa), interprocedural through closures and helpers", "4 C14"),
  "C17": ("Decides lock typestate of the patched linker (Lock dominates stamp read/patch/build/stamp write; error returns leave the flag clear so the deferred function unlocks; success returns set it and return unlock; no early unlock; caller defers unlock before running the linker), "
-         "that every file visible to other garble processes is created O_EXCL/unique, under the linker lock, or via the cache API (one reviewed in-place rewrite), that the directory shared with toolexec children is a fresh MkdirTemp per command, and that garble has no goroutines (positive control). Decides these clauses, not any interleaving.",
+         "that every file visible to other garble processes is created O_EXCL/unique, under the linker lock, or via the cache API (one reviewed in-place rewrite), that the directory shared with toolexec children is a fresh MkdirTemp per command, that the shared linker is built with the target variables overridden after the inherited environment, and that garble has no goroutines (positive control). Decides these clauses, not any interleaving.",
          "typestate/dominance on go/ssa + filesystem-effect enumeration", "4 C17"),
  "C18": ("Decides ordering clauses: stamp written only on the nil edge of buildLinker; reuse guarded by stamp+file+size; every path to buildLinker has a mismatching stamp or removes stamp first (path enumeration, const-trip loops); "
-         "the shared dir is a fresh MkdirTemp per command; all writes under the cache dir are PutBytes or the linker under its lock. Decides these clauses, not the effect of a kill at any instant.",
+         "the shared dir is a fresh MkdirTemp per command; checkVersion turns no stamp content into an error; all writes under the cache dir are PutBytes or the linker under its lock. Decides these clauses, not the effect of a kill at any instant.",
          "path enumeration and dominance on go/ssa + filesystem-effect enumeration", "4 C18"),
  "C08": ("Decides coverage and plumbing clauses: the reflected-type walker's component coverage against what reflect.Type can navigate (Elem x5, map Key, struct fields, func params/results, Named underlying, Alias rhs); "
          "CopyFrom merges every pkgCache field and the seed table names reflect.TypeOf/ValueOf; coverage floors of the five SSA switches of the analysis (25 cases); the fix-point has no pruning state and its progress measure counts parameter sets; "
-         "name pairs are emitted sorted; the abi patch anchor occurs exactly once in the pinned toolchain's internal/abi/type.go and the linkname names agree; shares R07.2 with C07 (facts of a dependency that can reach reflect transitively are recomputed on a cache miss, merged and stored). Decides these clauses, not the soundness of the taint heuristic over all flows.",
+         "name pairs are emitted sorted; the abi patch anchor occurs exactly once in the pinned toolchain's internal/abi/type.go and the linkname names agree; shares R07.2 with C07 (facts of a dependency that can reach reflect transitively are recomputed on a cache miss, merged and stored); the method-signature heuristic marks unnamed struct types only; the type walker stops early only on visited, universe and already-recorded types. Decides these clauses, not the soundness of the taint heuristic over all flows.",
          "component/field/case coverage extraction from go/ssa + text-level agreement with GOROOT source", "4 C08"),
  "C13": ("Decides single-source clauses: garble map takes every name from obfuscatedObjectName and every path from obfuscatedImportPath (no hashing of its own); every transformer field the naming decision transitively reads is set by "
          "transformerForListedPackage; build/map/reverse fill the package list through toolexecCmd -> appendListedPackages and type-check with <pkg>.ImportPath and importerForPkg(<pkg>); map skips objects only for the documented reasons and takes the same pre-steps as the build's identifier visitor (blank names, embedded fields named after their type); reverse has a case for every kind of object map lists (funcs, types, package-level vars, fields, interface methods). "
